@@ -212,6 +212,81 @@ func checkC20(c c20Case) error {
 					return fmt.Errorf("%s: error %T %v, want a ParamExpError", step, gerr, gerr)
 				}
 			}
+		case "expandw":
+			// ${name<op>word} with a word that has an effect of its own or fails:
+			// the word is expanded exactly when it is needed, and exactly once
+			cmd, _, err := parser.ParseCommand("c20", "_ "+op.Src)
+			if err != nil {
+				return fmt.Errorf("harness: %q: %v", op.Src, err)
+			}
+			w := cmd.(*ast.Cmd).Expr.(*ast.SimpleCmd).Args[1]
+			snap := oracle.Snapshot(w)
+			pe := w[0].(*ast.ParamExp)
+			name := pe.Name.Value
+			before, wasSet := c20Expected(name, model, c.Args, env.Opts)
+			needed := !wasSet
+			if strings.HasPrefix(pe.Op, ":") {
+				needed = !wasSet || before == ""
+			}
+			if pe.Op == ":+" || pe.Op == "+" {
+				needed = !needed
+			}
+			// the word
+			val, wordFails := "", false
+			if needed {
+				switch wsrc := op.Src[strings.Index(op.Src, pe.Op)+len(pe.Op) : len(op.Src)-1]; wsrc {
+				case "$((n_+=1))":
+					n, _ := strconv.Atoi(model["n_"])
+					model["n_"] = strconv.Itoa(n + 1)
+					val = model["n_"]
+				case "${y_:?}", "$((1/0))", "$((08))":
+					wordFails = true
+				case "${1:=v}":
+					// a positional parameter cannot be assigned: fails unless $1 has a value
+					p1, p1set := c20Expected("1", model, c.Args, env.Opts)
+					wordFails = !p1set || p1 == ""
+					val = p1
+				case "${b:=V}":
+					if model["b"] == "" {
+						model["b"] = "V"
+					}
+					val = model["b"]
+				case "W":
+					val = "W"
+				default:
+					return fmt.Errorf("harness: unknown word %q", wsrc)
+				}
+			}
+			var gerr error
+			if e := guard(func() error { _, gerr = env.Expand(w, 0); return nil }); e != nil {
+				return fmt.Errorf("%s: Expand %v", step, e)
+			}
+			if oracle.Snapshot(w) != snap {
+				return fmt.Errorf("%s: Expand changed the word it was given", step)
+			}
+			wantErr := wordFails
+			if needed && !wordFails {
+				switch pe.Op {
+				case ":=", "=":
+					if c20Special(name) {
+						wantErr = true // cannot be assigned
+					} else {
+						model[name] = val
+					}
+				case ":?", "?":
+					wantErr = true
+				}
+			}
+			if wantErr != (gerr != nil) {
+				return fmt.Errorf("%s: error %v, want an error: %v (the word is needed: %v, its own expansion fails: %v)", step, gerr, wantErr, needed, wordFails)
+			}
+			if gerr != nil {
+				switch gerr.(type) {
+				case interp.ParamExpError, interp.ArithExprError:
+				default:
+					return fmt.Errorf("%s: error %T %v, want a ParamExpError or an ArithExprError", step, gerr, gerr)
+				}
+			}
 		case "arith":
 			// the expression as an arithmetic expansion, expanded twice from the
 			// same parsed word
@@ -346,6 +421,19 @@ var c20Exprs = map[string]*ref.ANode{
 	"7++":       {Kind: "postinc", S: "7"},
 	"--(a + 4)": {Kind: "predec", S: "(a + 4)"},
 	"++b":       {Kind: "preinc", S: "b"},
+	// an assignment in an operand that is not evaluated, and the same variable read afterwards
+	"(0 && (a = 5)) + (b = a)": {Kind: "bin", Op: "+",
+		A: &ref.ANode{Kind: "bin", Op: "&&", A: &ref.ANode{Kind: "num", S: "0"}, B: &ref.ANode{Kind: "asg", Op: "=", S: "a", A: &ref.ANode{Kind: "num", S: "5"}}},
+		B: &ref.ANode{Kind: "asg", Op: "=", S: "b", A: &ref.ANode{Kind: "var", S: "a"}}},
+	"0 && _x++ || (b = _x)": {Kind: "bin", Op: "||",
+		A: &ref.ANode{Kind: "bin", Op: "&&", A: &ref.ANode{Kind: "num", S: "0"}, B: &ref.ANode{Kind: "postinc", S: "_x"}},
+		B: &ref.ANode{Kind: "asg", Op: "=", S: "b", A: &ref.ANode{Kind: "var", S: "_x"}}},
+	"(1 || (A = 9)) + (b = A + 1)": {Kind: "bin", Op: "+",
+		A: &ref.ANode{Kind: "bin", Op: "||", A: &ref.ANode{Kind: "num", S: "1"}, B: &ref.ANode{Kind: "asg", Op: "=", S: "A", A: &ref.ANode{Kind: "num", S: "9"}}},
+		B: &ref.ANode{Kind: "asg", Op: "=", S: "b", A: &ref.ANode{Kind: "bin", Op: "+", A: &ref.ANode{Kind: "var", S: "A"}, B: &ref.ANode{Kind: "num", S: "1"}}}},
+	"(0 ? (_x = 3) : 4) + (b = _x)": {Kind: "bin", Op: "+",
+		A: &ref.ANode{Kind: "cond", A: &ref.ANode{Kind: "num", S: "0"}, B: &ref.ANode{Kind: "asg", Op: "=", S: "_x", A: &ref.ANode{Kind: "num", S: "3"}}, C: &ref.ANode{Kind: "num", S: "4"}},
+		B: &ref.ANode{Kind: "asg", Op: "=", S: "b", A: &ref.ANode{Kind: "var", S: "_x"}}},
 	// not expressions (nil): a syntax error, also inside an operand that is not evaluated
 	"0 && (1 +":  nil,
 	"1 || (2 *":  nil,
@@ -366,6 +454,7 @@ func c20Alphabet() []c20Op {
 		ops = append(ops, c20Op{Kind: "eval", Src: src})
 	}
 	ops = append(ops, c20Op{Kind: "arith", Src: "a = 7"}, c20Op{Kind: "eval", Src: "--5"}, c20Op{Kind: "eval", Src: "0 && (1 +"}, c20Op{Kind: "walk"})
+	ops = append(ops, c20Op{Kind: "expandw", Src: "${a:=$((n_+=1))}"}, c20Op{Kind: "expandw", Src: "${A:?${y_:?}}"}, c20Op{Kind: "eval", Src: "(0 && (a = 5)) + (b = a)"})
 	return ops
 }
 
@@ -376,6 +465,8 @@ func c20NonTrivial(c c20Case) bool {
 		case "expand":
 			assigning = assigning || strings.Contains(op.Src, "=")
 			undo = undo || strings.Contains(op.Src, "?")
+		case "expandw":
+			assigning = true
 		case "eval", "arith":
 			assigning = assigning || strings.ContainsAny(op.Src, "=+-")
 		case "unset":
@@ -453,10 +544,20 @@ func TestC20(t *testing.T) {
 		if rapid.Bool().Draw(rt, "tenargs") {
 			c.Args = []string{"1", "2", "3", "4", "5", "6", "7", "8", "9", "ten"}
 		}
-		c.Opts = uint(rapid.SampledFrom([]interp.Option{0, interp.NoGlob, interp.AllExport | interp.XTrace}).Draw(rt, "opts"))
+		c.Opts = uint(rapid.SampledFrom([]interp.Option{0, interp.NoGlob, interp.AllExport | interp.XTrace, interp.NoUnset, interp.NoUnset | interp.NoGlob}).Draw(rt, "opts"))
 		k := rapid.IntRange(1, 12).Draw(rt, "nops")
 		for i := 0; i < k; i++ {
-			switch rapid.IntRange(0, 7).Draw(rt, "op") {
+			switch rapid.IntRange(0, 9).Draw(rt, "op") {
+			case 8, 9:
+				name := rapid.SampledFrom([]string{"a", "A", "b", "_x", "1", "2", "?", "!", "10"}).Draw(rt, "wname")
+				op := rapid.SampledFrom([]string{":=", "=", ":?", "?", ":-", "-", ":+", "+"}).Draw(rt, "wop")
+				word := rapid.SampledFrom([]string{"$((n_+=1))", "$((n_+=1))", "${y_:?}", "$((1/0))", "${1:=v}", "$((08))", "${b:=V}", "W"}).Draw(rt, "wword")
+				if c20Special(name) && (op == ":=" || op == "=") {
+					// the assignment is refused; whether the word is expanded before that is not specified
+					word = "W"
+				}
+				c.Ops = append(c.Ops, c20Op{Kind: "expandw", Src: "${" + name + op + word + "}"})
+				st.Class("expansion_with_a_word_that_assigns_or_fails")
 			case 7:
 				c.Ops = append(c.Ops, c20Op{Kind: "get"})
 			case 0:
